@@ -209,6 +209,7 @@ class ForestDump:
         self._keep = order
         for i, n in enumerate(order):
             self.ids[id(n)] = i
+        self.syms = [self.num.sym(n.head.state.symbol) for n in order]
         self.poss_ids = []   # per node: id() of each possibility object (for hook attribution)
         for n in order:
             alts = []
@@ -232,3 +233,47 @@ class ForestDump:
                 else:
                     out += [1, a[1], a[2], a[3], len(a[4])] + a[4]
         return out
+
+
+def forest_alt_keys(d):
+    """Canonical keys of the packed alternatives of an acyclic dump:
+    (node key, production, child node keys) with node key = (symbol, leaf span)
+    where the leaf span is (first leaf start, last leaf end) or ('e', position)
+    for an empty yield."""
+    span = []
+    for alts in d.nodes:
+        sp = None
+        for a in alts:
+            if a[0] == 0:
+                sp = (a[2], a[3])
+            else:
+                ne = [span[c] for c in a[4] if span[c][0] != "e"]
+                sp = (ne[0][0], ne[-1][1]) if ne else ("e", a[2])
+            break
+        span.append(sp)
+    keys = set()
+    for i, alts in enumerate(d.nodes):
+        nk = (d.syms[i], span[i])
+        for a in alts:
+            if a[0] == 1:
+                keys.add((nk, a[1], tuple((d.syms[c], span[c]) for c in a[4])))
+    return keys, span
+
+
+def oracle_alt_keys(num, skip, flat):
+    """Keys (same shape) from the Lean oracle's `sppf` reply."""
+    g = num.grammar
+    keys = set()
+    i = 0
+
+    def nk(sym, a, b):
+        return (sym, ("e", skip[a]) if a == b else (skip[a], b))
+
+    while i < len(flat):
+        A, s, e, p, n = flat[i:i + 5]
+        ks = flat[i + 5:i + 5 + n]
+        i += 5 + n
+        rhs = rhs_of(g.productions[p])
+        pos = [s] + ks
+        keys.add((nk(2 * A, s, e), p, tuple(nk(num.sym(X), pos[m], pos[m + 1]) for m, X in enumerate(rhs))))
+    return keys
